@@ -524,8 +524,9 @@ func (x *Exec) enterLoop(fr *Frame, b *ssa.BasicBlock, loop *LoopInfo, edges []e
 		g := x.evalInv(fr, st, loopSnap, loop, inv)
 		x.oblige(st, "inv", invLabel(fr, loop, inv, i), "init", g, "")
 	}
-	// discover the write set by a dry run of the body from a fully havocked state
-	writes := x.loopWrites(fr, b, loop, st, phis)
+	// discover the write set by dry runs of the body (iterated until no new heap array is written)
+	wset := x.loopWrites(fr, b, loop, st, phis)
+	writes := wset.keys
 	fr.loopWrites(loop, writes)
 	for _, k := range sortedKeys(writes) {
 		if g := x.frameInv(fr, st, k); g != nil {
@@ -536,33 +537,8 @@ func (x *Exec) enterLoop(fr *Frame, b *ssa.BasicBlock, loop *LoopInfo, edges []e
 	for _, phi := range phis {
 		fr.regs[phi] = x.havocValue(st, fr.regs[phi], "loop_"+phi.Name(), phi.Type())
 	}
-	var ws []string
-	for k := range writes {
-		ws = append(ws, k)
-	}
-	sort.Strings(ws)
-	preAlloc := st.alloc
-	if writes["alloc"] {
-		st.alloc = Fresh("alloc_loop", "Int")
-		x.assume(st, Ge(st.alloc, preAlloc))
-	}
-	for _, k := range ws {
-		switch {
-		case strings.HasPrefix(k, "ghost:"):
-			g := strings.TrimPrefix(k, "ghost:")
-			ng := Fresh("G_"+g+"_loop", ghostSorts[g])
-			if freshOnlyGhost[g] || (freshUnlessListed(g) && !ghostListed(fr.top, g)) {
-				// sound only for identities created before the function under verification was entered:
-				// the function itself may update the groups it created before the loop (invariants say how)
-				q := BoundVar("q_fg", "Int")
-				x.assume(st, Forall([]*Term{q}, [][]*Term{{Select(ng, q)}}, Implies(Lt(q, fr.top.entry.alloc), Eq(Select(ng, q), Select(fr.top.entry.G(g), q)))))
-			}
-			st.ghost[g] = ng
-		case k == "alloc":
-		default:
-			st.heap[k] = freshHeap(st, k, "loop")
-		}
-	}
+	ws := sortedKeys(writes)
+	x.havocWriteSet(fr, st, wset, "loop")
 	// assume the invariants for an arbitrary iteration
 	var assumed []*Term
 	for _, inv := range invs {
@@ -611,25 +587,170 @@ func (x *Exec) havocValue(st *State, old Value, name string, typ types.Type) Val
 	return x.freshVal(st, name, typ)
 }
 
-// loopWrites executes the loop body once in dry mode from an arbitrary state and
-// reports which heap keys / ghosts are written.
-func (x *Exec) loopWrites(fr *Frame, head *ssa.BasicBlock, loop *LoopInfo, st *State, phis []*ssa.Phi) map[string]bool {
+// writeSet: what a loop body (or a closure run repeatedly by a library rule) may write.
+type writeSet struct {
+	keys  map[string]bool
+	cells map[string][]*Term // heap arrays written only at these iteration-independent references
+}
+
+// stableRef: a reference term that denotes the same location in every iteration: built without memory
+// reads, only from symbols that existed before the dry run started.
+func stableRef(t *Term, startID int) bool {
+	ok := true
+	seen := map[*Term]bool{}
+	var rec func(t *Term)
+	rec = func(t *Term) {
+		if !ok || seen[t] {
+			return
+		}
+		seen[t] = true
+		switch t.kind {
+		case kConst:
+			if t.id >= startID || strings.HasPrefix(t.Op, "dry_") {
+				ok = false
+			}
+		case kBoundVar, kQuant:
+			ok = false
+		case kApp:
+			if t.Op == "select" || strings.HasPrefix(t.Sort, "(Array") {
+				ok = false
+				return
+			}
+			for _, a := range t.Args {
+				rec(a)
+			}
+		}
+	}
+	rec(t)
+	return ok
+}
+
+// discoverWrites runs body in dry mode from st until the set of written heap arrays / ghosts is stable: every
+// round starts with everything found so far havocked, so that writes guarded by state the body itself changes
+// (a captured flag, a queue head) are found too. Heap arrays that were only written through single-location stores
+// at iteration-independent references are reported as cells and can be havocked precisely.
+func (x *Exec) discoverWrites(st *State, body func(dst *State)) *writeSet {
 	x.dry++
 	defer func() { x.dry-- }()
-	dst := st.clone()
-	dst.writes = map[string]bool{}
-	dst.pc = True
+	known := map[string]bool{}
+	var last *State
+	startID := termCount + 1
+	for round := 0; round < 8; round++ {
+		dst := st.clone()
+		dst.writes = map[string]bool{}
+		dst.wlog = newWriteLog()
+		dst.pc = True
+		dst.alloc = Fresh("dry_alloc", "Int")
+		for _, k := range sortedKeys(known) {
+			switch {
+			case strings.HasPrefix(k, "ghost:"):
+				g := strings.TrimPrefix(k, "ghost:")
+				dst.ghost[g] = Fresh("dry_G_"+g, ghostSorts[g])
+			case k == "alloc":
+			default:
+				dst.heap[k] = Fresh("dry_"+k, heapSorts[k])
+			}
+		}
+		body(dst)
+		last = dst
+		grew := false
+		for k := range dst.writes {
+			if !known[k] {
+				known[k] = true
+				grew = true
+			}
+		}
+		if !grew {
+			break
+		}
+	}
+	ws := &writeSet{keys: known, cells: map[string][]*Term{}}
+	// any allocation on any path shows up as a changed alloc term in some state; be conservative:
+	ws.keys["alloc"] = true
+	for k := range known {
+		if strings.HasPrefix(k, "ghost:") || k == "alloc" || strings.HasPrefix(k, "EH_") || last.wlog.any[k] {
+			continue
+		}
+		refs := last.wlog.refs[k]
+		if len(refs) == 0 || len(refs) > 12 {
+			continue
+		}
+		ok := true
+		seen := map[*Term]bool{}
+		var uniq []*Term
+		for _, r := range refs {
+			if !stableRef(r, startID) {
+				ok = false
+				break
+			}
+			if !seen[r] {
+				seen[r] = true
+				uniq = append(uniq, r)
+			}
+		}
+		if ok {
+			ws.cells[k] = uniq
+		}
+	}
+	return ws
+}
+
+// havocWriteSet forgets everything the body may have changed.
+func (x *Exec) havocWriteSet(fr *Frame, st *State, ws *writeSet, why string) {
+	preAlloc := st.alloc
+	if ws.keys["alloc"] {
+		st.alloc = Fresh("alloc_"+why, "Int")
+		x.assume(st, Ge(st.alloc, preAlloc))
+	}
+	for _, k := range sortedKeys(ws.keys) {
+		switch {
+		case strings.HasPrefix(k, "ghost:"):
+			g := strings.TrimPrefix(k, "ghost:")
+			ng := Fresh("G_"+g+"_"+why, ghostSorts[g])
+			if freshOnlyGhost[g] || (freshUnlessListed(g) && !ghostListed(fr.top, g)) {
+				// sound only for identities created before the function under verification was entered:
+				// the function itself may update the groups it created before the loop (invariants say how)
+				q := BoundVar("q_fg", "Int")
+				x.assume(st, Forall([]*Term{q}, [][]*Term{{Select(ng, q)}}, Implies(Lt(q, fr.top.entry.alloc), Eq(Select(ng, q), Select(fr.top.entry.G(g), q)))))
+			}
+			st.ghost[g] = ng
+		case k == "alloc":
+		default:
+			if refs := ws.cells[k]; refs != nil {
+				h := st.H(k, heapSorts[k])
+				for _, r := range refs {
+					v := Fresh("hv_"+k, elemSortOf(heapSorts[k]))
+					if vt := heapValType[k]; vt != nil && sortOf(vt) == v.Sort {
+						x.assume(st, wfBound(st.alloc, v, vt))
+					}
+					h = Store(h, r, v)
+				}
+				st.heap[k] = h
+			} else {
+				st.heap[k] = freshHeap(st, k, why)
+			}
+		}
+	}
+}
+
+// loopWrites reports which heap keys / ghosts the loop body may write.
+func (x *Exec) loopWrites(fr *Frame, head *ssa.BasicBlock, loop *LoopInfo, st *State, phis []*ssa.Phi) *writeSet {
 	savedRegs := map[ssa.Value]Value{}
 	for k, v := range fr.regs {
 		savedRegs[k] = v
 	}
 	savedRets := fr.rets
 	savedDefers := fr.defers
-	for _, phi := range phis {
-		fr.regs[phi] = Value{T: Fresh("dry_"+phi.Name(), sortOf(phi.Type()))}
-	}
-	allocBefore := dst.alloc
-	func() {
+	ws := x.discoverWrites(st, func(dst *State) {
+		for k := range fr.regs {
+			delete(fr.regs, k)
+		}
+		for k, v := range savedRegs {
+			fr.regs[k] = v
+		}
+		for _, phi := range phis {
+			fr.regs[phi] = Value{T: Fresh("dry_"+phi.Name(), sortOf(phi.Type()))}
+		}
 		in := map[*ssa.BasicBlock][]edgeState{}
 		started := false
 		for _, b := range fr.info.Order {
@@ -670,17 +791,11 @@ func (x *Exec) loopWrites(fr *Frame, head *ssa.BasicBlock, loop *LoopInfo, st *S
 			}
 			x.execInstrsFiltered(fr, b, bst, in, loop)
 		}
-	}()
-	w := dst.writes
-	if dst.alloc != allocBefore {
-		w["alloc"] = true
-	}
-	// any allocation on any path shows up as a changed alloc term in some state; be conservative:
-	w["alloc"] = true
+	})
 	fr.regs = savedRegs
 	fr.rets = savedRets
 	fr.defers = savedDefers
-	return w
+	return ws
 }
 
 func (x *Exec) loopInvs(fr *Frame, loop *LoopInfo) []Clause {
